@@ -28,7 +28,8 @@ package bfe_server
 //   length    no Content-Length on the wire that differs from the bytes actually delivered
 //   accept    the request accepted that coding (RFC 7231 section 5.3.4 reference; values that
 //             are not well-formed or that contradict themselves are not judged)
-// Responses to HEAD and 304 carry no body for the client by definition and are not judged.
+// Responses to HEAD and 1xx/204/304 responses carry no body for the client by definition and are
+// not judged, except that nothing the filter produced may follow their head on the wire.
 
 import (
 	"bufio"
@@ -819,22 +820,24 @@ func (h *c54h) execute(reqs []*c54req, outcome func(string)) (vs []c54verdict, p
 			continue
 		}
 		if resp.StatusCode == 204 || resp.StatusCode/100 == 1 {
-			// The client takes no body after such a head. The module compressed nevertheless:
-			// there is no body that could decompress to anything, and whatever the filter
-			// produced and bfe wrote after the head reaches the client as surplus bytes.
-			_, derr := c54gunzip(body)
-			if enc == "br" {
-				_, derr = c54unbrotli(body)
-			}
+			// The client takes no body after such a head, so there is nothing to decompress
+			// (not judged, like HEAD and 304) — unless the output of the module's filter is on
+			// the wire anyway: then the client does receive these bytes, after a response that
+			// ended, and they are not a body that decompresses to the (empty) backend body.
 			next := len(wire)
 			if k := bytes.Index(wire[hdrEnd:], []byte("HTTP/1.")); k >= 0 {
 				next = hdrEnd + k
 			}
-			vs = append(vs, c54verdict{
-				sig:    fmt.Sprintf("body:status-%d:%s:bodiless-response-compressed", resp.StatusCode, enc),
-				detail: fmt.Sprintf("status %d response was compressed: the client receives Content-Encoding %s with a %d-byte body (%v) and %d surplus bytes after the head: %s", resp.StatusCode, enc, len(body), derr, next-hdrEnd, c54short(wire[hdrEnd:next])),
-			})
-			break // what follows on this connection is out of sync; not judged further
+			if next > hdrEnd {
+				vs = append(vs, c54verdict{
+					sig:    fmt.Sprintf("body:status-%d:%s:filter-output-on-wire-after-bodiless-head", resp.StatusCode, enc),
+					detail: fmt.Sprintf("status %d response was compressed: Content-Encoding %s and %d surplus bytes follow the bodiless head: %s", resp.StatusCode, enc, next-hdrEnd, c54short(wire[hdrEnd:next])),
+				})
+				break // what follows on this connection is out of sync; not judged further
+			}
+			outcome(fmt.Sprintf("compressed-bodyless-unjudged:%s:%s", q.method, strconv.Itoa(resp.StatusCode)))
+			prevCompressed = "" // nothing of this response is on the wire after its head
+			continue
 		}
 
 		// length clause
@@ -1306,7 +1309,7 @@ func TestVerifC54(t *testing.T) {
 			}
 		}
 		for _, n := range bigLens {
-			if !thorough && n != 70000 && ru.f != 4096 {
+			if n != 70000 && (ru.f != 4096 || (ru.cmd == "BROTLI" && ru.q >= 6 && (!thorough || n != 32768))) {
 				continue
 			}
 			for _, kind := range []byte{'z', 't', 'r'} {
@@ -1315,7 +1318,7 @@ func TestVerifC54(t *testing.T) {
 				}
 				body := c54body(kind, n)
 				for _, k := range []int{0, 1000, 4096, 32769} {
-					if !thorough && (k == 1000 || k == 32769) && kind != 't' {
+					if (k == 1000 || k == 32769) && kind != 't' {
 						continue
 					}
 					for _, fm := range []string{"cl", "chunked", "close"} {
